@@ -85,10 +85,16 @@ func (d *tDecoder) Decode(b []byte, base unsafe.Pointer, sd *structDesc, maxdept
 
 	i := 0
 	for {
+		if i >= len(b) { // may also be caused by thrift.Binary.Skip which doesn't check the last fixed size value of a map
+			return i, io.ErrShortBuffer
+		}
 		tp := ttype(b[i])
 		i++
 		if tp == tSTOP {
 			break
+		}
+		if len(b)-i < 2 {
+			return i, io.ErrShortBuffer
 		}
 		fid := binary.BigEndian.Uint16(b[i:])
 		i += 2
@@ -110,6 +116,9 @@ func (d *tDecoder) Decode(b []byte, base unsafe.Pointer, sd *structDesc, maxdept
 		t := f.Type
 		p = d.mallocIfPointer(t, p)
 		if t.FixedSize > 0 {
+			if len(b)-i < t.FixedSize {
+				return i, io.ErrShortBuffer
+			}
 			i += decodeFixedSizeTypes(t.T, b[i:], p)
 		} else {
 			var n int
@@ -216,6 +225,9 @@ func (d *tDecoder) decodeType(t *tType, b []byte, p unsafe.Pointer, maxdepth int
 		return 0, errDepthLimitExceeded
 	}
 	if t.FixedSize > 0 {
+		if len(b) < t.FixedSize {
+			return 0, io.ErrShortBuffer
+		}
 		return decodeFixedSizeTypes(t.T, b, p), nil
 	}
 	switch t.T {
@@ -315,6 +327,10 @@ func (d *tDecoder) decodeType(t *tType, b []byte, p unsafe.Pointer, maxdepth int
 				tmp = sliceK
 			}
 			if kt.FixedSize > 0 {
+				if len(b)-i < kt.FixedSize {
+					err = io.ErrShortBuffer
+					break
+				}
 				i += decodeFixedSizeTypes(kt.T, b[i:], tmp)
 			} else {
 				if n, err = d.decodeType(kt, b[i:], tmp, maxdepth-1); err != nil {
@@ -337,6 +353,10 @@ func (d *tDecoder) decodeType(t *tType, b []byte, p unsafe.Pointer, maxdepth int
 				tmp = sliceV
 			}
 			if vt.FixedSize > 0 {
+				if len(b)-i < vt.FixedSize {
+					err = io.ErrShortBuffer
+					break
+				}
 				i += decodeFixedSizeTypes(vt.T, b[i:], tmp)
 			} else {
 				if n, err = d.decodeType(vt, b[i:], tmp, maxdepth-1); err != nil {
